@@ -625,7 +625,11 @@ func (u *Unit) recvFrom(fr *Frame, st *State, ch Val, elem types.Type, where str
 			// the channel may have been closed: a receive may yield the zero value
 			okT = u.fresh(SBool, "recvok")
 		}
-		u.assume(And(st.pc, okT), Or(alts...))
+		if n := len(u.loopMarks); n > 0 && id <= u.loopMarks[n-1] {
+			// made before the loop being cut: the value may come from an earlier iteration's send
+		} else {
+			u.assume(And(st.pc, okT), Or(alts...))
+		}
 		u.event(fr, st, "recv local", map[string]Val{"value": val}, where)
 	case strings.HasPrefix(origin, "ctxdone"):
 		val = u.zeroVal(elem)
